@@ -1070,6 +1070,16 @@ def monitor_corr(pipe, res, kind, nseq, maxlen):
     if len(imp) != len(sent):
         res.oblige('D:harness-session', False, '%d answers for %d sequences; %s' % (len(imp), len(sent), err[-800:]))
         return []
+    # blocking probes are timing based: an operation that returns may, under load, need longer than the probe waits.
+    # Every disagreement is therefore repeated alone with a long probe time before it counts.
+    redo = [i for i, (e, b) in enumerate(zip(expect, imp)) if e != b]
+    if redo and len(redo) <= 400:
+        env2 = dict(os.environ); env2['VERIF_PROBE_MS'] = '1500'
+        again, rc2, err2 = lib.session(exe, [sent[i] for i in redo], env=env2, timeout=1800)
+        if len(again) == len(redo):
+            for i, a2 in zip(redo, again):
+                imp[i] = a2
+            res.corr['timing_retries'] = len(redo)
     dis = 0
     for r, e, b in zip(sent, expect, imp):
         res.corr['requests'] += 1
@@ -1134,7 +1144,8 @@ def flat_oracle_u(ops, ans):
         elif a[0] == 'sfs':
             fs = int(a[1])
         elif a[0] == 'drop':
-            low = max(low, min(maxg, g))
+            # everything behind the get position is consumed - read, or skipped by a forward seek - and may be dropped
+            low = max(low, min(g, p, fs))
         tg = g if good else -1
         tp = p if good else -1
         if int(d['tg']) != tg or int(d['tp']) != tp or int(d['fs']) != fs or (d['good'] == '1') != good or (d['eof'] == '1') != eof:
